@@ -14,7 +14,7 @@ var allProps = []string{"C01", "C02", "C03", "C04", "C05", "C06", "C07", "C08", 
 func manifest() map[string]any {
 	setup := "cd /verif/checker && GOFLAGS=-mod=mod GOPROXY=off GOSUMDB=off GOTOOLCHAIN=local CGO_ENABLED=0 go build -o /verif/bin/sqljsonlint . && go build -o /verif/bin/goyacc golang.org/x/tools/cmd/goyacc"
 	checks := []map[string]any{}
-	var na []map[string]any
+	na := []map[string]any{}
 	for _, id := range allProps {
 		s := props[id]
 		if s == nil {
